@@ -86,7 +86,7 @@ func calibrateThreads(bin string) int {
 	counts := map[int]int{}
 	for i := 0; i < 9; i++ {
 		cmd := exec.Command(bin, "-test.run", "^TestSim$")
-		cmd.Env = []string{"GOMAXPROCS=1", "GOGC=off", "GODEBUG=asyncpreemptoff=1,randautoseed=0,randseednop=0", "VERIF_PROBE_THREADS=1"}
+		cmd.Env = []string{"GOMAXPROCS=1", "GOGC=off", "GODEBUG=asyncpreemptoff=1,randautoseed=0,randseednop=0,updatemaxprocs=0", "VERIF_PROBE_THREADS=1"}
 		out, err := cmd.Output()
 		if err != nil {
 			continue
